@@ -1,4 +1,5 @@
 import Zstd.Model.FrameDecoder
+import Zstd.Proofs.FrameDecoderFollows
 /-
 C01 — the decoder reproduces the original data for every valid frame.
 
@@ -109,6 +110,129 @@ theorem offsetHistory_refines (ov ll : Nat) (h : Spec.OffHist) (hov : ov ≥ 1) 
       simp [*]
     · have : ov = 1 ∨ ov = 2 ∨ ov = 3 := by omega
       rcases this with rfl | rfl | rfl <;> simp [hpos, hll]
+
+/-! ### sequence execution (agentH) -/
+
+/-- `repeat_eq_overlapCopy`: `DecodeBuffer::repeat` — in-buffer copy, chunked overlapping copy,
+`repeat_from_dict` entirely in the dictionary, straddling the boundary — computes the Spec's
+byte-by-byte match copy, whenever the Spec's reach-back rule admits the offset (dictionary only while
+the whole output lies within the window) and `total_output_counter` does not over-count -/
+theorem repeat_refines (b : DBuf) (off ml : Nat) (out2 : Array Nat) (h0 : 0 < off)
+    (htot : b.totalOut ≤ b.content.size)
+    (hreach : off > b.content.size → b.content.size ≤ b.window ∧ off - b.content.size ≤ b.dict.size)
+    (hm : Spec.matchCopy b.dict ml off b.content = some out2) :
+    ∃ b2, b.repeat off ml = .ok b2 ∧ b2.content = out2 ∧ b2.dict = b.dict ∧ b2.window = b.window ∧
+      b2.hashed = b.hashed ∧ b2.totalOut ≤ b2.content.size :=
+  Model.repeat_refines b off ml out2 h0 htot hreach hm
+
+/-- `executeSequences_refines`: whenever the RFC executor accepts a block's sequences on the output
+produced so far (`b.content`, nothing drained — C06 lifts this to every drain schedule) and the block
+regenerates at most `Block_Maximum_Size` bytes (the Spec checks that in `decodeCompressedBlock`), the
+model's `execute_sequences` returns `Ok`, leaves exactly the Spec's output in the buffer and the
+Spec's offset history in the scratch; dictionary, window and hasher are untouched and the counter
+still does not over-count (so the next block can be chained).  `hov` holds for every sequence the
+sequence decoder produces (`C03.decodeSeqLoop_ov_pos`). -/
+theorem executeSequences_refines (seqs : List Spec.Seq) (lits : List Nat) (h h' : Spec.OffHist)
+    (b : DBuf) (out' : Array Nat)
+    (hov : ∀ s ∈ seqs, s.ov ≥ 1) (htot : b.totalOut ≤ b.content.size)
+    (hspec : Spec.execSequences b.window b.dict seqs lits h b.content = some (out', h'))
+    (hsize : out'.size - b.content.size ≤ Spec.blockMaxSize) :
+    ∃ b', executeSequences seqs lits (h.r1, h.r2, h.r3) 0 b = ((b', (h'.r1, h'.r2, h'.r3)), .ok ()) ∧
+      b'.content = out' ∧ b'.dict = b.dict ∧ b'.window = b.window ∧ b'.hashed = b.hashed ∧
+      b'.totalOut ≤ b'.content.size := by
+  have hsz := execSequences_size _ _ _ _ _ _ _ _ hspec
+  have e1 : Spec.blockMaxSize = 131072 := by decide
+  have e2 : Gen.maxBlockSize = 131072 := by decide
+  obtain ⟨b', he, hr⟩ := executeSequences_refines_aux seqs lits h h' 0 b out' hov htot hspec (by omega)
+  exact ⟨b', he, hr.content, hr.dict, hr.window, hr.hashed, hr.totalOut⟩
+
+/-- `decompressBlock_refines`: a Compressed_Block body the Spec accepts (`decodeCompressedBlock`, incl. its
+`Block_Maximum_Size` check) is decoded by the model's `decompress_block` to the same output with the
+same entropy state afterwards (Huffman table, FSE tables, offset history) -/
+theorem decompressBlock_refines (bytes : List Nat) (e e' : Spec.Entropy) (b : DBuf) (out' : Array Nat)
+    (htot : b.totalOut ≤ b.content.size)
+    (hs : Spec.decodeCompressedBlock b.window b.dict bytes e b.content = some (out', e')) :
+    ∃ b', decompressBlock bytes e b = ((b', e'), .ok ()) ∧ b'.content = out' ∧ b'.dict = b.dict ∧
+      b'.window = b.window ∧ b'.hashed = b.hashed ∧ b'.totalOut ≤ b'.content.size := by
+  obtain ⟨b', h1, h2⟩ := Model.decompressBlock_refines bytes e e' b out' htot hs
+  exact ⟨b', h1, h2.content, h2.dict, h2.window, h2.hashed, h2.totalOut⟩
+
+/-- `frameHeader_refines`: whenever the Spec parses a frame header the model's `read_frame_header` reads
+the same fields from the same number of bytes, and `window_size()` returns the Spec's window -/
+theorem frameHeader_refines (bytes : List Nat) (hb : ∀ x ∈ bytes, x < 256) (h : Spec.FrameHeader)
+    (hs : Spec.parseFrameHeader bytes = some h) :
+    ∃ fh, readFrameHeader bytes = .ok (fh, h.hdrLen, bytes.drop h.hdrLen) ∧
+      fh.windowSize = .ok h.window ∧ fh.dictId = h.dictId ∧ fh.checksumFlag = h.desc.checksum := by
+  obtain ⟨fh, h1, h2, h3, h4, -, -⟩ := readFrameHeader_refines bytes hb h hs
+  exact ⟨fh, h1, h2, h3, h4⟩
+
+/-- `decodeBlocks_refines`: the block loop (`decode_blocks(All)`) follows the Spec's `decodeBlocks`
+block by block — raw, RLE and compressed blocks, any number — ending in the code's last-block handling
+(`finishFrame`: checksum read when flagged) with the Spec's output in the buffer and exactly the Spec's
+byte count consumed -/
+theorem decodeBlocks_refines (fuelS a c fuel : Nat) (bytes : List Nat) (hb : ∀ x ∈ bytes, x < 256)
+    (e : Spec.Entropy) (st : FState) (out' : Array Nat) (consumed consumed' : Nat)
+    (hf : bytes.length < fuel) (hent : st.entropy = e) (htot : st.buf.totalOut ≤ st.buf.content.size)
+    (hs : Spec.decodeBlocks st.buf.window st.buf.dict fuelS bytes e st.buf.content consumed = some (out', consumed')) :
+    ∃ st' n, consumed' = consumed + n ∧ n ≤ bytes.length ∧
+      decodeBlocksLoop .all a c fuel st bytes = finishFrame st' (bytes.drop n) ∧
+      st'.buf.content = out' ∧ st'.bytesRead = st.bytesRead + n := by
+  obtain ⟨st', n, h1, h2, h3, h4, h5, -⟩ :=
+    decodeBlocksLoop_refines fuelS a c fuel bytes hb e st out' consumed consumed' hf ⟨rfl, hent, htot⟩ hs
+  exact ⟨st', n, h1, h2, h3, h4, h5⟩
+
+/-- `decodeFrame_refines_partial` (C01 at the frame level, model with the entropy stand-ins): every frame
+the Spec accepts — with the decoder's registered dictionaries, window within the decoder's limit — is
+decoded by `reset` + `decode_blocks(All)`: `Ok(true)`, the buffer holds exactly the Spec's content,
+`is_finished()`, `bytes_read_from_source()` = the Spec's frame length, the source left is the input
+minus exactly that, the stored checksum is the frame's (which the Spec has verified to be
+`low32(XXH64(content))`), nothing hashed yet.  `collect()` then hands out the content (C06/C08).
+Missing for `C01_full`: (a) the real entropy decoders in place of the stand-ins (C12/C13 refinements);
+(b) `decode_all` instead of `reset + decode_blocks(All)` — needs `SchedOk` from Spec validity (C06);
+(c) `C01_full` as worded is false for inputs with trailing bytes after the frame (`Spec.decodeFrame`
+ignores them, `decode_all` rejects them): it needs the hypothesis `r.consumed = f.length`. -/
+theorem decodeFrame_refines_partial (d : Decoder) (f : List Nat) (hb : ∀ x ∈ f, x < 256) (r : Spec.FrameResult)
+    (hs : Spec.decodeFrame f (d.dicts.map Dict.toSpec) = some r) (hlim : r.header.window ≤ d.maxWindow) :
+    ∃ d0 d1 rest st1, d.reset f = (d0, .ok rest) ∧
+      d0.decodeBlocks rest .all = (d1, .ok (f.drop r.consumed, true)) ∧ d1.state = some st1 ∧
+      st1.buf.content.toList = r.content ∧ d1.isFinished = true ∧ st1.bytesRead = r.consumed ∧
+      st1.checksum = r.checksum ∧ st1.buf.hashed = #[] ∧ r.consumed ≤ f.length :=
+  decodeFrame_refines d f hb r hs hlim
+
+/-- `decoder_reproduces_content_any_schedule_partial`: C01 + C06 composed — for every frame the Spec
+accepts and every documented driver program (any decode strategies / budgets, any interleaving of
+collect / read / collect_to_writer with any sink), the bytes delivered are a prefix of the original
+content, and all of it once the frame is finished and drained.  Partial only in that the executable
+model uses the Spec's entropy decoders as stand-ins (see `decodeFrame_refines_partial`). -/
+theorem decoder_reproduces_content_any_schedule_partial (d : Decoder) (f : List Nat) (hb : ∀ x ∈ f, x < 256)
+    (r : Spec.FrameResult) (hs : Spec.decodeFrame f (d.dicts.map Dict.toSpec) = some r)
+    (hlim : r.header.window ≤ d.maxWindow) (ops : List SOp) :
+    ∃ d0 rest, d.reset f = (d0, .ok rest) ∧ (DocOk d0 rest ops →
+      (runSched d0 rest ops).2.2.2 = none ∧
+      ∃ st tail, (runSched d0 rest ops).1.state = some st ∧
+        r.content = ((runSched d0 rest ops).2.2.1 ++ st.buf.content ++ tail).toList ∧
+        (st.finished = true → st.buf.content = #[] → (runSched d0 rest ops).2.2.1.toList = r.content)) := by
+  obtain ⟨d0, rest, hres, h⟩ := Model.valid_frame_any_schedule d f hb r hs hlim ops
+  refine ⟨d0, rest, hres, fun hdoc => ?_⟩
+  obtain ⟨h1, st, tail, hst, hh, hc, hfin⟩ := h hdoc
+  refine ⟨h1, st, tail, hst, by rw [← hh]; exact hc, ?_⟩
+  intro hf hempty
+  obtain ⟨ht, -⟩ := hfin hf
+  rw [hc, ht, hempty, hh]; simp
+
+/-- non-vacuity: the Spec accepts this frame (single segment, raw block "abc", no checksum) -/
+example : (Spec.decodeFrame [0x28, 0xB5, 0x2F, 0xFD, 0x20, 3, 0x19, 0, 0, 97, 98, 99] []).map (·.content) = some [97, 98, 99] := by
+  decide +kernel
+
+/-- `C01_full` as worded does not hold: trailing bytes after a valid frame are ignored by
+`Spec.decodeFrame` but rejected by `decode_all` -/
+example : (Spec.decodeFrame [0x28, 0xB5, 0x2F, 0xFD, 0x20, 3, 0x19, 0, 0, 97, 98, 99, 0] []).map (·.content) = some [97, 98, 99] ∧
+    ((({} : Decoder).decodeAll [0x28, 0xB5, 0x2F, 0xFD, 0x20, 3, 0x19, 0, 0, 97, 98, 99, 0] 3).2.isOk) = false := by
+  decide +kernel
+
+/-- non-vacuity of `executeSequences_refines`: literals "ab", then a match of length 4 at offset 2 -/
+example : Spec.execSequences 1024 #[] [⟨2, 4, 5⟩] [97, 98, 99] ⟨1, 4, 8⟩ #[] = some (#[97, 98, 97, 98, 97, 98, 99], ⟨2, 1, 4⟩) := by
+  decide +kernel
 
 /-- non-vacuity: a raw last block header of size 4 -/
 example : Model.parseBlockHeader 0x21 0 0 = .ok ⟨true, 0, 4, 4⟩ := by decide
